@@ -50,6 +50,8 @@ ASSUMPTIONS = [
     'against registered slave objects whose handle_event/save/update_last_sync/schedule_provisioning_and_update are '
     'recorders (everything after the authentication is what is replaced); the facts about each presented credential '
     '(origin, key, freshness) are known to the harness by construction of the header; PyJWT signature checking is trusted',
+    'credential histories use PATCH /device (passwords, display_name) and PUT /device with the hub\'s own document; POST /reset '
+    '(factory reset legitimately empties the passwords, and reboots) is not part of the histories',
     'setup mode off (NotFoundHandler redirects GET to the frontend in setup mode instead of 404)',
     'the frontend is served from the source tree (settings.frontend.debug) because the built dist/ folder is not in the repo',
 ]
@@ -238,7 +240,12 @@ def setup_impl(ctx, res):
             except Exception:
                 lvl = None
             calls.setdefault(case, []).append((name, lvl))
-            return None
+            # a GET answers a small document (so that anything a handler keeps from a served answer is really kept and can
+            # show up later for another caller); other methods answer nothing (their default status is 204/201)
+            try:
+                return {'c09': 'stub'} if request.method == 'GET' else None
+            except Exception:
+                return None
         stub.__name__ = name.split('.')[-1]
         return stub
 
@@ -1219,7 +1226,13 @@ def check(ctx, res):
         'slave events endpoint with its real body: 5 slaves (permanently offline, polled, listened to, without password, '
         'unknown name) x 15 credentials (none, garbage, basic, hub consumer tokens of the three levels, device tokens with '
         'wrong / empty-password / hub-admin key, HS512, consumer-origin token with the slave key, bad iss, stale iat, genuine '
-        'device token made by make_auth_header, genuine with usr)'
+        'device token made by make_auth_header, genuine with usr). Plus the level granted by prepare(): every API function '
+        'of the default configuration under the 8 empty/non-empty configurations of the three passwords x {no header, valid '
+        'token of each user, admin token with a wrong key, garbage} (stubbed). Plus credentials as state, in a fresh process '
+        'with the real get/put/patch_device bodies: 16 curated + 40 (thorough 400) seeded random histories of up to 4 '
+        'operations (set a password, PUT /device with the hub\'s own document, patch another attribute) by various callers '
+        'from the factory state, each followed by 5 probes (one per minimum level) x 11 credentials (none, garbage, a token '
+        'of every user for every password 0..2, old and current)'
     )
     run(ctx, res, 'thorough' if ctx.tier == 'thorough' else 'quick')
 
@@ -1236,7 +1249,10 @@ LEVEL_TEXT = (
     'hand-written specification required_spec(route, method); hence for every flag assignment, route, method and level a '
     'request is served iff its level is at least the specified one, a lower one gets 401/403 and the body does not run, and '
     'a path shape with no enabled route gets 404; the slave event push (wrapper level none) serves iff the presented token is a '
-    'fresh device-origin token verifying under the slave\'s admin hash, else 401, unknown slave 404. The real tornado application is driven exhaustively (every URLSpec x 7 '
+    'fresh device-origin token verifying under the slave\'s admin hash, else 401, unknown slave 404; the level prepare() grants '
+    '(order of tests regenerated) is the specified one (a header is judged alone; no header is admin only with an empty admin '
+    'password); for every history of credential operations the model reaches the password state the specification prescribes '
+    '(PUT /device keeps the passwords) and nobody below admin changes it. The real tornado application is driven exhaustively (every URLSpec x 7 '
     'methods x 4 caller levels x flag sets, bodies stubbed) and compared in Coq with the model and with the specification.'
 )
 LEVEL_NOTE = (
